@@ -485,6 +485,172 @@ fn stale_resumption_psk_scenario<C: MlsConfig>(rng: &mut Rng, mk: &dyn Fn(&Setup
     let _ = std::fs::remove_dir_all("/tmp/vharness-scratch-c10x");
 }
 
+/// identity provider of the credential-type scenario: basic credentials and one custom credential type; `types` is what the
+/// client lists in its capabilities
+#[derive(Clone)]
+struct CredId {
+    types: Vec<mls_rs::identity::CredentialType>,
+}
+
+const CUSTOM_CRED: u16 = 0xf042;
+
+impl mls_rs::IdentityProvider for CredId {
+    type Error = crate::providers::Injected;
+    fn validate_member(&self, id: &mls_rs::identity::SigningIdentity, _t: Option<mls_rs::time::MlsTime>, _c: mls_rs_core::identity::MemberValidationContext<'_>) -> Result<(), Self::Error> {
+        if self.types.contains(&id.credential.credential_type()) {
+            Ok(())
+        } else {
+            Err(crate::providers::Injected("credential type not supported by this client".into()))
+        }
+    }
+    fn validate_external_sender(&self, _id: &mls_rs::identity::SigningIdentity, _t: Option<mls_rs::time::MlsTime>, _e: Option<&ExtensionList>) -> Result<(), Self::Error> {
+        Ok(())
+    }
+    fn identity(&self, id: &mls_rs::identity::SigningIdentity, _e: &ExtensionList) -> Result<Vec<u8>, Self::Error> {
+        Ok(match (&id.credential.as_basic(), &id.credential.as_custom()) {
+            (Some(b), _) => b.identifier.clone(),
+            (_, Some(c)) => c.data.clone(),
+            _ => vec![],
+        })
+    }
+    fn valid_successor(&self, a: &mls_rs::identity::SigningIdentity, b: &mls_rs::identity::SigningIdentity, e: &ExtensionList) -> Result<bool, Self::Error> {
+        Ok(self.identity(a, e)? == self.identity(b, e)?)
+    }
+    fn supported_types(&self) -> Vec<mls_rs::identity::CredentialType> {
+        self.types.clone()
+    }
+}
+
+/// Credential types (RFC 9420 7.3): a new leaf's credential type must be supported by every member, and the new leaf must
+/// support every credential type in use.  Clients with capabilities [basic] or [basic, custom]; outsiders with a basic or a
+/// custom credential.  By value such an Add is refused, by reference it is dropped, a compatible one is committed; two
+/// by-reference Adds that exclude each other (basic-only client, custom-credential client): exactly one is committed, whatever
+/// the cache order, and every receiver accepts and agrees.
+fn credential_type_scenario(rng: &mut Rng, out: &mut Out) {
+    use mls_rs::identity::{CredentialType, CustomCredential, SigningIdentity};
+    use mls_rs::{CipherSuite, CipherSuiteProvider, Client, CryptoProvider};
+    let both = vec![CredentialType::BASIC, CredentialType::new(CUSTOM_CRED)];
+    let basic_only = vec![CredentialType::BASIC];
+    let cs = RustCryptoProvider::default().cipher_suite_provider(CipherSuite::from(1u16)).unwrap();
+    let client = |name: &str, custom_cred: bool, types: &Vec<CredentialType>| {
+        let (sk, pk) = cs.signature_key_generate().unwrap();
+        let cred = if custom_cred {
+            mls_rs::identity::Credential::Custom(CustomCredential::new(CredentialType::new(CUSTOM_CRED), name.as_bytes().to_vec()))
+        } else {
+            mls_rs::identity::basic::BasicCredential::new(name.as_bytes().to_vec()).into_credential()
+        };
+        Client::builder()
+            .crypto_provider(RustCryptoProvider::default())
+            .identity_provider(CredId { types: types.clone() })
+            .signing_identity(SigningIdentity::new(cred, pk), sk, CipherSuite::from(1u16))
+            .build()
+    };
+    // group: 2-3 members with basic credentials; `narrow` = one of them supports basic only
+    let narrow = rng.chance(1, 2);
+    let n = rng.range(2, 3) as usize;
+    let clients: Vec<_> = (0..n).map(|i| client(&format!("m{i}"), false, if narrow && i == n - 1 { &basic_only } else { &both })).collect();
+    let Ok(mut g0) = clients[0].create_group(Default::default(), Default::default(), None) else {
+        out.fails.push("cred: create_group".into());
+        return;
+    };
+    let mut b = g0.commit_builder();
+    for c in clients.iter().skip(1) {
+        b = b.add_member(c.generate_key_package_message(Default::default(), Default::default(), None).unwrap()).unwrap();
+    }
+    let Ok(o) = b.build() else {
+        out.fails.push("cred: setup commit".into());
+        return;
+    };
+    g0.apply_pending_commit().unwrap();
+    let mut groups = vec![g0];
+    for c in clients.iter().skip(1) {
+        match o.welcome_messages.iter().find_map(|w| c.join_group(None, w, None).ok()) {
+            Some((g, _)) => groups.push(g),
+            None => {
+                out.fails.push("cred: setup join".into());
+                return;
+            }
+        }
+    }
+    // outsiders
+    let x_custom = client("x-custom", true, &both); // custom credential, supports both
+    let y_basic_only = client("y-basic-only", false, &basic_only); // basic credential, supports basic only
+    let kx = x_custom.generate_key_package_message(Default::default(), Default::default(), None).unwrap();
+    let ky = y_basic_only.generate_key_package_message(Default::default(), Default::default(), None).unwrap();
+    // (1) by value: X is compatible exactly when nobody is narrow; Y is compatible (everybody uses basic)
+    for (who, kp, ok_expected) in [("custom-credential", kx.clone(), !narrow), ("basic-only", ky.clone(), true)] {
+        out.cases += 1;
+        let mut g = groups[0].clone();
+        let r = g.commit_builder().add_member(kp).and_then(|b| b.build());
+        out.cover.insert(format!("cred:value:{who}:narrow={}:{}", narrow as u8, if r.is_ok() { "built" } else { "refused" }));
+        match (r.is_ok(), ok_expected) {
+            (true, false) => out.fails.push(format!("cred: Add by value of a {who} key package was committed although a member does not support its credential type")),
+            (false, true) => out.fails.push(format!("cred: Add by value of a compatible {who} key package was refused: {}", r.err().map(|e| err_class(&e)).unwrap_or_default())),
+            _ => {}
+        }
+    }
+    // (2) by reference, both proposed by member 1: X and Y exclude each other (X uses a type Y does not support); with a narrow
+    // member X is out anyway
+    let mut gp = groups[1].clone();
+    let (Ok(px), Ok(py)) = (gp.propose_add(kx, vec![]), gp.propose_add(ky, vec![])) else {
+        out.fails.push("cred: propose_add".into());
+        return;
+    };
+    let order: Vec<&MlsMessage> = if rng.chance(1, 2) { vec![&px, &py] } else { vec![&py, &px] };
+    let mut recv: Vec<mls_rs::Group<_>> = groups.iter().skip(2).cloned().collect();
+    recv.push(gp);
+    let mut gc = groups[0].clone();
+    for p in &order {
+        if gc.process_incoming_message((*p).clone()).is_err() {
+            out.fails.push("cred: committer rejected an Add proposal message".into());
+            return;
+        }
+        for (k, r) in recv.iter_mut().enumerate() {
+            // the proposer (last receiver) has its own proposals cached already
+            if k + 1 < n - 1 {
+                let _ = r.process_incoming_message((*p).clone());
+            }
+        }
+    }
+    out.cases += 1;
+    match gc.commit(vec![]) {
+        Err(e) => out.fails.push(format!("cred: commit with two by-reference Adds of incompatible credential types failed instead of dropping one: {}", err_class(&e))),
+        Ok(co) => {
+            let _ = gc.apply_pending_commit();
+            let members_after = gc.roster().members().len();
+            let expected = n + 1; // exactly one of the two (with a narrow member: Y only)
+            out.cover.insert(format!("cred:ref:narrow={}:members_after={}", narrow as u8, members_after - n));
+            if members_after != expected {
+                out.fails.push(format!("cred: {} of the two mutually exclusive Adds were committed (narrow member: {narrow})", members_after - n));
+            }
+            if narrow && gc.roster().members().iter().any(|m| m.signing_identity.credential.as_custom().is_some()) {
+                out.fails.push("cred: a custom-credential member was added although a member supports basic credentials only".into());
+            }
+            let tree = gc.export_tree().to_bytes().unwrap_or_default();
+            for r in recv.iter_mut() {
+                match r.process_incoming_message(co.commit_message.clone()) {
+                    Ok(_) => {
+                        if r.export_tree().to_bytes().unwrap_or_default() != tree {
+                            out.fails.push("cred: a receiver accepted the commit but holds another tree".into());
+                        }
+                    }
+                    Err(e) => out.fails.push(format!("cred: a receiver rejected the commit the library let the committer build: {}", err_class(&e))),
+                }
+            }
+            // (3) with a custom-credential member in the group, a basic-only client can no longer be added
+            if gc.roster().members().iter().any(|m| m.signing_identity.credential.as_custom().is_some()) {
+                let kz = client("z-basic-only", false, &basic_only).generate_key_package_message(Default::default(), Default::default(), None).unwrap();
+                out.cases += 1;
+                let r = gc.commit_builder().add_member(kz).and_then(|b| b.build());
+                out.cover.insert(format!("cred:value:basic-only-into-custom-group:{}", if r.is_ok() { "built" } else { "refused" }));
+                if r.is_ok() {
+                    out.fails.push("cred: a client that supports basic credentials only was added to a group in which a custom credential is in use".into());
+                }
+            }
+        }
+    }
+}
+
 pub fn run(o: &Opts) -> i32 {
     crate::util::quiet_panics();
     let dir = o.str("out", "/verif/work/c10");
@@ -501,6 +667,8 @@ pub fn run(o: &Opts) -> i32 {
         gce_scenario(&mut r, &mut out);
         lifetime_scenario(&mut r, &mut out, &mut qa);
         stale_resumption_psk_scenario(&mut r, &mk, &mut out);
+        credential_type_scenario(&mut r, &mut out);
+        credential_type_scenario(&mut r, &mut out);
     }
     let rows = qa.finish();
     println!("rows {rows}");
